@@ -514,3 +514,13 @@ func (r *Report) OKOnce(rule, key, pos, detail string) {
 	}
 	r.OK(rule, key, pos, detail)
 }
+
+// BadOnce records a violated obligation unless one with the same rule and key exists already.
+func (r *Report) BadOnce(rule, key, pos, detail string) {
+	for _, o := range r.Obls {
+		if o.Key == rule+":"+key {
+			return
+		}
+	}
+	r.Bad(rule, key, pos, detail)
+}
